@@ -64,7 +64,7 @@ def main(argv) -> int:
         d64 = int(out.digest[:16], 16)
         digs.append(d64)
         sigs.append(int(out.signature, 16))
-        if i < det_n:
+        if i < det_n and getattr(mod, "deterministic", lambda _sc: True)(sc):
             res["first_digests"][str(i)] = out.digest
         if out.nontrivial:
             res["nontrivial"] += 1
